@@ -233,37 +233,62 @@ def run(ctx):
               "the group is not obtained as sg.sg(sgname=sgname, cell_choice=cell_choice) / sg.sg(sgno=sgno, cell_choice=cell_choice) "
               "(ValueError when neither is given)", where)
     sgvar = disp.body[0].targets[0].id if okd else "mysg"
-    # ---- image expression
-    img = None
-    for node in ast.walk(fn):
-        if isinstance(node, ast.For) and isinstance(node.iter, ast.Call) and core.unparse(node.iter).replace(" ", "") == "range(%s.nsymop)" % sgvar:
-            for st in node.body:
-                if isinstance(st, ast.Assign) and isinstance(st.targets[0], ast.Subscript):
-                    img = (node, st)
-    if img is None:
-        raise AnalysisError("multiplicity: loop `for i in range(%s.nsymop)` storing the images not found" % sgvar)
-    loop, st = img
-    ivar = loop.target.id
-    tgt = st.targets[0]
-    lpname = tgt.value.id if isinstance(tgt.value, ast.Name) else None
-    row_store = core.unparse(tgt.slice).replace(" ", "").strip("()") in ("%s,:" % ivar, ivar)
+    # ---- image expression: the array whose rows are compared (`t = lp[i] - rep[j]`) is either filled row by row in a loop
+    # over range(nsymop) or computed in one vectorised expression
+    lpname = None
+    for n_ in ast.walk(fn):
+        if isinstance(n_, ast.Assign) and isinstance(n_.value, ast.BinOp) and isinstance(n_.value.op, ast.Sub) \
+                and isinstance(n_.value.left, ast.Subscript) and isinstance(n_.value.right, ast.Subscript) \
+                and isinstance(n_.value.left.value, ast.Name) and isinstance(n_.value.right.value, ast.Name):
+            lpname = n_.value.left.value.id
+    if lpname is None:
+        raise AnalysisError("multiplicity: difference of two images `t = lp[i] - rep[j]` not found")
     x = sym_array("position", (3,))
-    sgo = Obj("mysg", nsymop=Rat.const(2), rot=sym_array("R", (2, 3, 3)), trans=sym_array("t", (2, 3)))
-    val = Evaluator(mod, inline=set()).eval(st.value, {fn.args.args[0].arg: x, sgvar: sgo, ivar: Rat.const(1)})
-    V = val if isinstance(val, Arr) else materialise(val)
-    ok = V is not None and V.shape == (3,) and row_store
-    which = ""
-    if ok:
-        want = [sum((Rat.atom("R[1,%d,%d]" % (p, q)) * Rat.atom("position[%d]" % q) for q in range(3)), Rat.const(0))
-                + Rat.atom("t[1,%d]" % p) for p in range(3)]
-        wrong = [sum((Rat.atom("position[%d]" % q) * Rat.atom("R[1,%d,%d]" % (q, p)) for q in range(3)), Rat.const(0))
-                 + Rat.atom("t[1,%d]" % p) for p in range(3)]
-        got = [scalar(v) for v in V.data]
-        ok = all(g.equals(w) for g, w in zip(got, want))
-        if not ok and all(g.equals(w) for g, w in zip(got, wrong)):
-            which = " (it is x.R + t: the transposed rotation acts on the position, wrong for every non-symmetric rotation matrix)"
-    ctx.check(ok, "C15:image:multiplicity", "image i is not rot[i].position + trans[i]%s" % which, core.loc(mod, st),
-              sample={"image_expression": core.unparse(st.value)})
+    sgo = Obj("mysg", nsymop=Rat.const(2), rot=sym_array("R", (2, 3, 3)), trans=sym_array("t", (2, 3)), nuniq=Rat.const(1))
+    pname = fn.args.args[0].arg
+    img_rows = None          # list of 3-vectors (normal forms), one per operation
+    img_node = None
+    loop = None
+    for node in ast.walk(fn):
+        if isinstance(node, ast.For) and core.unparse(node.iter).replace(" ", "") == "range(%s.nsymop)" % sgvar:
+            for st in node.body:
+                if isinstance(st, ast.Assign) and isinstance(st.targets[0], ast.Subscript) \
+                        and isinstance(st.targets[0].value, ast.Name) and st.targets[0].value.id == lpname:
+                    ivar = node.target.id
+                    if core.unparse(st.targets[0].slice).replace(" ", "").strip("()") not in ("%s,:" % ivar, ivar):
+                        raise AnalysisError("multiplicity: image store `%s` is not a row store" % core.unparse(st.targets[0]))
+                    rows = []
+                    for k in range(2):
+                        val = Evaluator(mod, inline=set()).eval(st.value, {pname: x, sgvar: sgo, ivar: Rat.const(k)})
+                        V = val if isinstance(val, Arr) else materialise(val)
+                        if V is None or V.shape != (3,):
+                            raise AnalysisError("multiplicity: image expression is not a 3-vector")
+                        rows.append([scalar(v) for v in V.data])
+                    img_rows, img_node, loop = rows, st, node
+    if img_rows is None:
+        cands = [n_ for n_ in core.body_wo_doc(fn) if isinstance(n_, ast.Assign) and isinstance(n_.targets[0], ast.Name)
+                 and n_.targets[0].id == lpname and not (isinstance(n_.value, ast.Call) and getattr(n_.value.func, "attr", "") in ("zeros", "empty"))]
+        if len(cands) != 1:
+            raise AnalysisError("multiplicity: neither a row-by-row loop over range(%s.nsymop) nor one vectorised assignment fills `%s`" % (sgvar, lpname))
+        val = Evaluator(mod, inline=set()).eval(cands[0].value, {pname: x, sgvar: sgo})
+        V = val if isinstance(val, Arr) else materialise(val)
+        if V is None or V.shape != (2, 3):
+            raise AnalysisError("multiplicity: vectorised image expression does not evaluate to one row per operation")
+        img_rows = [[scalar(v) for v in row] for row in V.data]
+        img_node = cands[0]
+    ok = True
+    transposed = True
+    for k in range(2):
+        want = [sum((Rat.atom("R[%d,%d,%d]" % (k, p, q)) * Rat.atom("position[%d]" % q) for q in range(3)), Rat.const(0))
+                + Rat.atom("t[%d,%d]" % (k, p)) for p in range(3)]
+        wrong = [sum((Rat.atom("position[%d]" % q) * Rat.atom("R[%d,%d,%d]" % (k, q, p)) for q in range(3)), Rat.const(0))
+                 + Rat.atom("t[%d,%d]" % (k, p)) for p in range(3)]
+        ok = ok and all(g.equals(w) for g, w in zip(img_rows[k], want))
+        transposed = transposed and all(g.equals(w) for g, w in zip(img_rows[k], wrong))
+    which = " (it is x.R + t: the transposed rotation acts on the position, wrong for every non-symmetric rotation matrix)" \
+        if (not ok and transposed) else ""
+    ctx.check(ok, "C15:image:multiplicity", "image i is not rot[i].position + trans[i]%s" % which, core.loc(mod, img_node),
+              sample={"image_expression": core.unparse(img_node.value)})
     # ---- comparison loop
     cmp_loop = None
     for node in core.body_wo_doc(fn):
